@@ -644,29 +644,29 @@ func (n *node) readPartition(ctx context.Context, t topicMeta, part int32) (*par
 }
 
 // txnStates returns ListTransactions plus DescribeTransactions for txids.
-func (n *node) txnStates(ctx context.Context, txids []string) (listed []string, described []string, err error) {
+func (n *node) txnStates(ctx context.Context, txids []string, exists func(topic string) bool) (listed []string, described []string, missing int, err error) {
 	lreq := kmsg.NewPtrListTransactionsRequest()
 	lreq.DurationFilterMillis = -1
 	kresp, err := n.req(ctx, lreq)
 	if err != nil {
-		return nil, nil, err
+		return nil, nil, 0, err
 	}
 	lresp := kresp.(*kmsg.ListTransactionsResponse)
 	if lresp.ErrorCode != 0 {
-		return nil, nil, fmt.Errorf("list transactions: %w", kerr.ErrorForCode(lresp.ErrorCode))
+		return nil, nil, 0, fmt.Errorf("list transactions: %w", kerr.ErrorForCode(lresp.ErrorCode))
 	}
 	for _, s := range lresp.TransactionStates {
 		listed = append(listed, fmt.Sprintf("txid=%s pid=%d state=%s", s.TransactionalID, s.ProducerID, s.TransactionState))
 	}
 	sort.Strings(listed)
 	if len(txids) == 0 {
-		return listed, nil, nil
+		return listed, nil, 0, nil
 	}
 	dreq := kmsg.NewPtrDescribeTransactionsRequest()
 	dreq.TransactionalIDs = txids
 	kresp, err = n.req(ctx, dreq)
 	if err != nil {
-		return nil, nil, err
+		return nil, nil, 0, err
 	}
 	for _, s := range kresp.(*kmsg.DescribeTransactionsResponse).TransactionStates {
 		if s.ErrorCode != 0 {
@@ -675,6 +675,10 @@ func (n *node) txnStates(ctx context.Context, txids []string) (listed []string, 
 		}
 		var parts []string
 		for _, t := range s.Topics {
+			if !exists(t.Topic) {
+				missing++
+				continue
+			}
 			ps := append([]int32(nil), t.Partitions...)
 			sort.Slice(ps, func(i, j int) bool { return ps[i] < ps[j] })
 			parts = append(parts, fmt.Sprintf("%s%v", t.Topic, ps))
@@ -683,7 +687,7 @@ func (n *node) txnStates(ctx context.Context, txids []string) (listed []string, 
 		described = append(described, fmt.Sprintf("txid=%s pid=%d epoch=%d state=%s timeout=%d parts=%v", s.TransactionalID, s.ProducerID, s.ProducerEpoch, s.State, s.TimeoutMillis, parts))
 	}
 	sort.Strings(described)
-	return listed, described, nil
+	return listed, described, missing, nil
 }
 
 func reqCtx() (context.Context, context.CancelFunc) {
